@@ -379,6 +379,34 @@ def run_case(ctx, rng, kind, centered, n_dim, n_cov, n_ids, sel_mode,
                           {'chi': dth, 'reference': g_ref[n_ids * n_dim:],
                            'case': feats}, feats)
 
+    if kind in 'PH':
+        # separate form of models without bottom-level parameters: the parts
+        # (sensitivities w.r.t. the individual parameters, folded back
+        # through psi_i = vartheta_i, plus those w.r.t. the population
+        # parameters) add up to the gradient - nothing is counted twice
+        try:
+            dpsi_ = np.asarray(dpsi, dtype=float).reshape(n_ids, n_dim)
+            dth_ = np.asarray(dth, dtype=float).ravel()
+
+            def fold(z):
+                t3 = leaf.vartheta(z, cov, n_ids)
+                ps = t3[:, 0, :] if kind == 'P' else np.array(
+                    [t3[i, i, :] for i in range(n_ids)])
+                return np.sum(dpsi_ * ps)
+            total = dth_ + D.cstep_grad(fold, np.array(top))
+            ctx.count('separate_form_parts_added')
+            if dth_.shape != g_ref.shape or not ctx.close(
+                    total, g_ref, rtol=1e-8, scale=gs):
+                ctx.violation('gradient_forms_agree',
+                              'separate_parts_do_not_add_up:' + kind,
+                              {'dtheta': dth_, 'dpsi': dpsi_,
+                               'parts_added': total, 'reduced_form': g_ref,
+                               'upstream': upstream, 'case': feats}, feats)
+        except Exception as e:      # noqa
+            ctx.violation_exc('evaluation_raises', e,
+                              {'case': feats, 'call': 'separate form'},
+                              feats)
+
     # ---- beta names by perturbation (tap on the underlying model)
     order = rng.permutation(len(sel) * n_cov)[:12]
     for k in order:
